@@ -15,7 +15,7 @@ RULE = ('per case 1-3 send requests (source role through Agent.send_bundle, or r
         'unfragmented encoding for comparison. Fragments leave through idle callbacks interleaved by the scheduler. Non-trivial: the '
         'unfragmented encoding exceeds the MTU; distinct = digest of the request descriptors.')
 COMPONENTS = bc.COMPONENTS
-PROBES = ('case.fragmented', 'case.fits', 'case.no_fragment_flag', 'case.is_fragment', 'case.impossible', 'case.relay', 'case.with_bib', 'case.replicate_block',
+PROBES = ('case.fragmented', 'case.fits', 'case.no_fragment_flag', 'case.is_fragment', 'case.impossible', 'case.relay', 'case.with_bib', 'case.replicate_block', 'case.mtu_just_below_size',
           'frag.count_ge_3')
 ASSUMPTIONS = ['MTU means encoded bundle length', 'a do-not-fragment bundle larger than the MTU is, per the statement, sent unchanged']
 CHUNK = 15
@@ -38,13 +38,20 @@ def gen(ch, tier):
             mtu = ch.choice('mtu.b', (254, 255, 256, 257, 280, 65535, 65536))
         elif mtu_kind == 3:
             mtu = 20 + ch.pick('mtu.tiny', 80)     # often impossible
+        elif mtu_kind == 4 and ch.coin('mtu.rel', 1, 2):
+            # just below (or at) the exact unfragmented size, which a preliminary run measures
+            mtu = None
         else:
             mtu = plen + head + 100                  # fits
         blocks = []
         for bix in range(ch.weighted('next', (3, 3, 2, 1))):
             blocks.append(dict(type=ch.choice('bt', (192, 193, 7)), flags=ch.choice('bf', (0, 1, 1)), crc_type=ch.pick('bc', 3),
                                blen=ch.choice('bl', (1, 5, 23, 24, 60))))
-        reqs.append(dict(role=ch.choice('role', ('source', 'source', 'relay')), plen=plen, mtu=mtu, tag=rix + 1,
+        mtu_rel = None
+        if mtu is None:
+            mtu_rel = -ch.pick('mtu.relv', 10)
+            mtu = plen + head
+        reqs.append(dict(role=ch.choice('role', ('source', 'source', 'relay')), plen=plen, mtu=mtu, mtu_rel=mtu_rel, tag=rix + 1,
                          flags=ch.choice('flags', (0, 0, 0, rfc9171.FLAG_NO_FRAGMENT, rfc9171.FLAG_IS_FRAGMENT)),
                          pri_crc=ch.pick('pc', 3), pay_crc=ch.pick('yc', 3), blocks=blocks,
                          dest=ch.choice('dst', ('dtn://far/app', 'ipn:77.1')),
@@ -96,7 +103,34 @@ class Run:
     pass
 
 
+def _measure(plan, req):
+    ''' Unfragmented encoded size of one request, from a throw-away node without MTU. '''
+    from dsim.world import Chooser
+    nodes = {'u': dict(node_id='dtn://n1/', rx_routes=[['.*', 'forward']], tx_routes=[['.*', 'dtn://next/', None, None]], security=_security(plan))}
+    har = bp_net.BpHarness(dict(nodes=nodes), Chooser(0))
+    try:
+        if req['role'] == 'source':
+            har.send('u', _make_ctr(req))
+        else:
+            har.receive('u', _relay_bytes(req))
+        har.settle()
+        outs = har.cl_out['u']
+        return len(outs[0]['data']) if len(outs) == 1 else None
+    finally:
+        har.close()
+
+
 def execute(plan, sched, verbose=False):
+    if any(req.get('mtu_rel') is not None for req in plan['reqs']):
+        reqs = []
+        for req in plan['reqs']:
+            req = dict(req)
+            if req.get('mtu_rel') is not None:
+                size = _measure(plan, req)
+                if size is not None:
+                    req['mtu'] = max(20, size + req['mtu_rel'])
+            reqs.append(req)
+        plan = dict(plan, reqs=reqs)
     sec = _security(plan)
     nodes = {}
     for (ix, req) in enumerate(plan['reqs']):
@@ -146,6 +180,8 @@ def _drive(run, plan, har):
         may_fragment = not (req['flags'] & (rfc9171.FLAG_NO_FRAGMENT | rfc9171.FLAG_IS_FRAGMENT))
         if req['role'] == 'relay':
             stats['case.relay'] = 1
+        if req.get('mtu_rel') is not None and 0 < usize - req['mtu'] <= 9:
+            stats['case.mtu_just_below_size'] = 1
         if plan['bib']:
             stats['case.with_bib'] = 1
         if any(blk['flags'] & 1 for blk in req['blocks']):
@@ -170,7 +206,10 @@ def _drive(run, plan, har):
             stats['case.impossible'] = stats.get('case.impossible', 0) + 1
             # nothing transmitted: allowed only when fragmentation is impossible, i.e. not even one payload octet fits
             first_overhead = usize - len(rfc9171.payload(ref))
-            if first_overhead + 12 < req['mtu'] and len(rfc9171.payload(ref)) > 0:
+            # room for the two fragment fields and the payload head, each as wide as the encoded payload length (what a
+            # sender that sizes conservatively reserves), plus a little: below that, declining to fragment is not a loss
+            plen_enc = len(cbor2.dumps(len(rfc9171.payload(ref))))
+            if first_overhead + 3 * plen_enc + 3 < req['mtu'] and len(rfc9171.payload(ref)) > 0:
                 run.viols.append(('lost', 'nothing-sent', '%s: nothing was transmitted although non-payload size %d leaves room within the MTU' % (where, first_overhead)))
             continue
         stats['case.fragmented'] = 1
